@@ -140,14 +140,21 @@ if keep:
 """
 W_SUBCHANNEL = """
 sub = channel.gateway.newchannel()
+if %(chreconf)r == "before":
+    sub.reconfigure()            # the documented per-channel switch (default values), before the peer knows the channel
 channel.send(sub)
+if %(chreconf)r == "after":
+    sub.reconfigure()
 for x in %(items)r:
     sub.send(x)
 sub.close()
 back = channel.receive()
 for x in %(items2)r:
     back.send(x)
-back.close()
+if %(backend)r == "drop":
+    del back                     # dropping the last reference closes it like close() does
+else:
+    back.close()
 """
 
 
@@ -214,6 +221,10 @@ def gen_conversation(rng, kinds, tag):
     elif kind == "subchannel":
         c["items"] = gen_items(rng, rng.randint(0, 3))
         c["items2"] = gen_items(rng, rng.randint(0, 3))
+        if rng.random() < 0.5:
+            # Channel.reconfigure (default values: no change of meaning) before or after the channel travels
+            c["chreconf"] = rng.choice(["before", "after"])
+            c["backend"] = rng.choice(["close", "drop"])
     return c
 
 
@@ -245,7 +256,7 @@ def worker_source(c):
     if k == "halfclose":
         return W_HALFCLOSE
     if k == "subchannel":
-        return W_SUBCHANNEL % {"items": c["items"], "items2": c["items2"]}
+        return W_SUBCHANNEL % {"items": c["items"], "items2": c["items2"], "chreconf": c.get("chreconf"), "backend": c.get("backend", "close")}
     raise ValueError(k)
 
 
@@ -620,7 +631,11 @@ def run_program(prog, chooser, seed, line_budget=0, cut_w2i=None, remote_backend
                 back = gw.newchannel()
                 o["back_id"] = back.id
                 o["back_got"] = []
+                if c.get("chreconf") == "before":
+                    back.reconfigure()
                 ch.send(back)
+                if c.get("chreconf") == "after":
+                    back.reconfigure()
                 try:
                     while 1:
                         o["back_got"].append(back.receive(timeout=20))
